@@ -233,7 +233,7 @@ DEFAULT_OPTS = dict(
     max_fields=6, max_depth=2, max_len=4,
     bits=True, signed_bits=True, wide_bits=True, enum_bits=True, char_bits=False,
     enums=True, nested=True, unions=True, dyn_unions=False, ptrs=True, dyn=True, eof=True, floats=True,
-    wide=True, wchar=True, leb=True, void=False, multidim=True, aliases=True, consts=True,
+    wide=True, wchar=True, leb=True, void=True, multidim=True, aliases=True, consts=True,
     fixed_only=False, null_struct=True, anon=True, named_structs=True, self_ptr=False,
     expr_rich=False, bias=None, name_prefix=None,
 )
@@ -518,6 +518,11 @@ class Gen:
             x = r.random()
             fname = self.nm()
             bias = o.get("bias")
+            if o["void"] and not union and self.chance(0.05 if bias != "bits" else 0.12):
+                # a member without bytes (it still ends an open bit-field unit)
+                fields.append(F(fname, {"k": "void"}))
+                self.feat("void-member")
+                continue
             if bias == "bits" and o["bits"] and not union and self.chance(0.45):
                 self.bit_run(fields, int_names)
                 continue
